@@ -35,6 +35,20 @@ fn std_scenario(seed: u64, params: &GenParams, force_async: Option<bool>) -> Sce
     sc
 }
 
+/// On a fraction of the seeds: few root requirements and soft requirements on packages nobody requests.
+fn maybe_unrequested_soft(seed: u64, sc: &mut Scenario, one_in: usize) {
+    let mut r = Rng::stream(seed, "unrequested-soft");
+    if !r.chance(1, one_in) {
+        return;
+    }
+    let k = r.range(1, 3);
+    let keep = r.below(2);
+    sc.solves[0].problem.requirements.truncate(keep);
+    let mut p = sc.solves[0].problem.clone();
+    crate::gen::add_unrequested_soft_packages(&mut r, &mut sc.world, &mut p, k);
+    sc.solves[0].problem = p;
+}
+
 fn swarm(seed: u64, base: GenParams) -> GenParams {
     // swarm: perturb the shape parameters per run
     let mut r = Rng::stream(seed, "swarm");
@@ -87,7 +101,9 @@ impl Property for C01 {
         if seed % 2 == 0 {
             base.max_soft = 3;
         }
-        vec![std_scenario(seed, &swarm(seed, base), None)]
+        let mut sc = std_scenario(seed, &swarm(seed, base), None);
+        maybe_unrequested_soft(seed, &mut sc, 6);
+        vec![sc]
     }
     fn judge(&self, sc: &Scenario) -> Verdict {
         let rec = execute(sc);
@@ -465,18 +481,28 @@ impl Property for C04 {
         "widest swarm (hints x constraints/exclusions/locks, soft requirements x exclusions/unrequested packages, self-constraints, cycles, empty and missing packages, duplicate requirements; sync and async; both build profiles); oracle: no panic, no deadlock, no step/poll budget, conflict graph + graphviz(x2) + user-friendly message finish within max(64KiB, 2KiB*(nodes+edges)^2); non-trivial = world with >= 4 solvables and at least one fault kind fired; distinct = (world, trace, plan) hash"
     }
     fn gen(&self, seed: u64, _tier: Tier) -> Vec<Scenario> {
-        let mut base = match seed % 3 {
-            0 => GenParams::conflict_rich(),
-            _ => GenParams::wide(),
+        let mut r = Rng::stream(seed, "c04");
+        let mut base = match r.below(4) {
+            0 | 1 => GenParams::conflict_rich(),
+            2 => GenParams::wide(),
+            _ => GenParams::conflict_free(),
         };
-        base.p_self_constrain = 2;
-        base.p_excluded = 2;
-        base.p_locked = 2;
-        base.hint_weights = [3, 3, 3, 4];
-        if seed % 2 == 0 {
-            base.max_soft = 3;
+        if r.chance(1, 2) {
+            // the interactions the property names
+            base.p_self_constrain = 2;
+            base.p_excluded = 2;
+            base.p_locked = 2;
+            base.hint_weights = [3, 3, 3, 4];
+        }
+        if r.chance(1, 2) {
+            base.max_soft = r.range(1, 4);
+        }
+        if r.chance(1, 4) {
+            base.max_packages = 12;
+            base.max_solvables = 60;
         }
         let mut sc = std_scenario(seed, &swarm(seed, base), None);
+        maybe_unrequested_soft(seed, &mut sc, 4);
         sc.render = true;
         vec![sc]
     }
@@ -1479,6 +1505,7 @@ impl Property for C14 {
         base.max_soft = 5;
         base.max_root_reqs = 3;
         let mut sc = std_scenario(seed, &swarm(seed, base), None);
+        maybe_unrequested_soft(seed, &mut sc, 4);
         if sc.solves[0].problem.soft.is_empty() && !sc.world.solvables.is_empty() {
             let mut r = Rng::stream(seed, "soft");
             let all: Vec<u32> = sc.world.solvables.keys().copied().collect();
